@@ -465,6 +465,7 @@ func histGen(prop string, stores []string) func(t *rapid.T) histCase {
 			o.Types = []string{"int8", "int32", "int64", "uint16", "decimal64", "string", "boolean"}
 			if !strings.HasSuffix(store, "-struct") {
 				o.KeyTypes = []string{"string", "int32", "string", "int32", "int8", "int64", "uint16", "uint64", "boolean"}
+				o.Types = append(o.Types, "enumeration")
 			}
 		}
 		if strings.HasSuffix(store, "-struct") {
